@@ -93,6 +93,8 @@ def run(ctx):
     ctx.ob("R3", "RdfStore::triples_with_object#fallback", (R, "triples") in Rt and (R, "object_index") in Rt,
            what="triples_with_object has no full-scan fallback for a disabled object index", where=two.loc())
 
+    _matches_table(ctx, P)
+
     # ---- R4 find_with_pending
     g = P.fn("RdfStore::find_with_pending")
     gx = FlowCx(P, g)
@@ -120,3 +122,39 @@ def run(ctx):
     has_retain = any(callee_name(t).split("::")[-1] == "retain" and "call:RdfStore::find" in gx.tags(t["args"][0]) for bi, t in g.calls())
     ctx.ob("R4", "find_with_pending#pending-deletes", has_retain,
            what="find_with_pending does not remove pending deletes from the committed matches", where=g.loc())
+
+
+def _matches_table(ctx, P):
+    """TriplePattern::matches: `false` exactly when a bound component differs from the triple's component of the same
+    name; `true` otherwise"""
+    from .flow import return_table
+    f = P.fn("TriplePattern::matches")
+    rows = return_table(P, f)
+    comps = {"subject": False, "predicate": False, "object": False}
+    extra = []
+    has_true = False
+    for v, facts, bi, ln in rows:
+        if v == ("const", "1"):
+            has_true = True
+            continue
+        if v == ("const", "0"):
+            hit = None
+            for x in facts:
+                if x[0] == "cmp" and x[1] in ("Ne",):
+                    a, b = x[2], x[3]
+                    for c in comps:
+                        if (("cell:TriplePattern." + c) in a and ("call:Triple::" + c) in b) or \
+                           (("cell:TriplePattern." + c) in b and ("call:Triple::" + c) in a):
+                            others = [o for o in comps if o != c]
+                            cross = any(("call:Triple::" + o) in (a | b) or ("cell:TriplePattern." + o) in (a | b) for o in others)
+                            if not cross:
+                                hit = c
+            if hit:
+                comps[hit] = True
+            else:
+                extra.append(ln)
+        else:
+            extra.append(ln)
+    ctx.ob("R5", "TriplePattern::matches#table", all(comps.values()) and has_true and not extra,
+           what="TriplePattern::matches must reject exactly when a bound component differs from the triple's component of the same "
+                "name (components checked: %s, unexpected rows at lines %s)" % (comps, extra), where=f.loc())
